@@ -17,7 +17,7 @@
 // One ND-JSON event per step:
 //   Reset{loc,how0,age0,pol,st,drv}  Tick{d}  Tamper{b,ck,src}  Expire{b}  Restart{b}
 //   Req{b,now,ck,hon}  St{op,sid,sb,found,dl}*  Loaded{ok,m,age,how,srv}
-//   Op{op,...}*  St{...}*  Saved{threw,ck,sc}  Jar{xc}  Store{s}
+//   Op{op,...,ga,gh,gs}*  St{...}*  Saved{threw,ck,sc}  Jar{xc}  Store{s}      (ga/gh/gs: age(), expiration(), on_server() after the op)
 // Cookie strings are interned (same string <=> same id); sid s shares the id of cookie "I"+s.
 //
 // usage: sess_drv exh  <loc> <expire> <storage> <jar> <depth> <maxops> [keys]
@@ -294,6 +294,8 @@ static void apply(session_interface &s,op const &o)
 	case 7: s.on_server(o.t!=0); j.s("op","srv").b("s",o.t!=0); break;
 	case 8: s.reset_session(); j.s("op","reset"); break;
 	}
+	// what the getters show right after the operation
+	j.i("ga",s.age()).i("gh",s.expiration()).b("gs",s.on_server());
 	tr.line(j.str());
 }
 
